@@ -144,10 +144,13 @@ def _scenario(args):
                 paths['hex'] = paths['out'] + '.hex'
             if t == 'lab-nodir':
                 paths['lab'] = os.path.join(cwd, 'nodir', 'out.lab')
+            if t == 'lab-alias':
+                # -l names the file that -o (or, with --hex-offset, <output>.hex) names, possibly spelled differently
+                paths['lab'] = paths['hex'] if sc['hex'] and rng.random() < 0.5 else paths['out']
             if not sc['defout']:
                 argv += [['-o', 'nodir/' if slash_form else os.path.relpath(paths['out'], cwd)]]
             if sc['labels']:
-                argv += [['-l', os.path.relpath(paths['lab'], cwd)]]
+                argv += [['-l', ('./' if t == 'lab-alias' and rng.random() < 0.5 else '') + os.path.relpath(paths['lab'], cwd)]]
             if sc['compress']:
                 argv += [['-c']]
             if sc.get('verbose'):
@@ -190,6 +193,8 @@ def _scenario(args):
                     state[fkey] = 'absent'
                 else:
                     state[fkey] = 'old' if (os.path.isdir(p) and not os.listdir(p)) or (os.path.isfile(p) and open(p, 'rb').read() == prewritten.get(fkey)) else 'new'
+            if t == 'lab-alias':
+                state['lab'] = 'absent'        # (there is no label file of its own: the path is the -o / .hex file judged under its own key)
             # stray files
             known = {os.path.basename(p) for p in paths.values() if os.path.dirname(p) == cwd}
             extra = sorted(x for x in os.listdir(cwd) if x not in known)
